@@ -235,7 +235,9 @@ func genRequest(r *rand.Rand, bodies []string, key string) ([]byte, string) {
 
 func httpGen(r *rand.Rand, count int, emit func(op string, args ...string)) {
 	bodies := []string{"change-query(foo)", "up+down", "first", "reload(seq 10)", "change-query(a)+toggle-all", "bogus-action", "", "execute(echo x)",
-		"put(x)", "abort", "change-query:hello world", "up\r\n", "\r\nup", "select-all+accept", "change-prompt[x> ]"}
+		"put(x)", "abort", "change-query:hello world", "up\r\n", "\r\nup", "select-all+accept", "change-prompt[x> ]",
+		// blanks at the edges of the body are part of the action list (only CR / LF are trimmed)
+		"change-query:foo  ", " accept", "change-prompt:> ", "change-header:x\t", "up ", "  ", "\tup", "change-query:a \r\n"}
 	if genSeed%1000 == 0 || count < 1000 {
 		// every form of a --listen address, with and without an API key: a listener without a key is local
 		hosts := []string{"", "localhost", "127.0.0.1", "0.0.0.0", "LOCALHOST", "127.0.0.2", "nosuchhost.invalid", " ", "localhost ", "::1", "[::1]", "::"}
